@@ -32,6 +32,15 @@ impl<S, K: Clone + Eq + Hash> QueueInner<S, K> {
     pub fn remove(&mut self, k: &K) {
         self.streams.remove(k);
     }
+
+    /// Drops every stream and pending event. Used when the owning socket shuts down: a stream
+    /// that was polled keeps a waker (held by the I/O driver) that points back to this queue, so
+    /// the streams have to be released explicitly for their connections to close.
+    pub fn clear(&mut self) {
+        self.streams.clear();
+        self.ready_queue.clear();
+        self.waker = None;
+    }
 }
 
 pub struct FairQueue<S, K: Clone> {
